@@ -20,19 +20,21 @@ type ppuScript struct {
 	stat   int
 	lyc    int
 	cycles int
+	debug  bool     // ppu.New's debug flag (Config.DebugLCD: 256 x 256 frame buffer, other colours) - no bearing on timing
 	sw     [][3]int // (cycle index before which LCDC is written, bit 7 value 0/1, low seven bits or -1 for a derived value)
 }
 
 func ppuRun(s *ppuScript) *trace.Scenario {
 	i := interrupts.New()
 	o := oam.New()
-	p := ppu.New(i, o, false)
+	p := ppu.New(i, o, s.debug)
 	// start from LCD off (the constructor switches it on)
 	p.WriteLCDC(0x11)
-	p.WriteSTAT(uint8(s.stat))
+	// STAT bits 0-2 are read-only and bit 7 does not exist: what is written there must not show anywhere
+	p.WriteSTAT(uint8(s.stat | []int{0x00, 0x07, 0x83, 0x81, 0x02, 0x84}[(s.stat/8+s.lyc+s.cycles)%6]))
 	p.WriteLYC(uint8(s.lyc))
 	i.WriteIF(0)
-	sc := &trace.Scenario{ID: s.id, Reset: []int{s.stat, s.lyc, s.cycles}}
+	sc := &trace.Scenario{ID: s.id, Reset: []int{s.stat, s.lyc, s.cycles, trace.B2I(s.debug)}}
 	k := 0
 	perr := machine.Try(func() { ppuLoop(s, sc, p, i, &k) })
 	if perr != "" {
@@ -97,7 +99,7 @@ func ppuMain(c *Ctx) {
 		}
 		for _, s := range scs {
 			r := trace.Ints(s.Reset)
-			ps := &ppuScript{id: s.ID, stat: r[0], lyc: r[1], cycles: r[2]}
+			ps := &ppuScript{id: s.ID, stat: r[0], lyc: r[1], cycles: r[2], debug: len(r) > 3 && r[3] == 1}
 			t := 0
 			for _, e := range s.Ev {
 				switch trace.Int(e[0]) {
@@ -154,6 +156,10 @@ func ppuMain(c *Ctx) {
 		}
 		for _, fr := range long {
 			emit("frames", &ppuScript{stat: []int{0, 64}[fr%2], lyc: 113, cycles: fr*17556 + 300, sw: [][3]int{{3 + rng.Intn(40), 1, -1}}})
+		}
+		// the debug configuration of the PPU (bigger frame buffer): same schedule
+		for _, st := range []int{0, 16, 8} {
+			emit("frames", &ppuScript{stat: st, lyc: 0, cycles: frames*17556 + 2500, debug: true, sw: [][3]int{{3 + rng.Intn(40), 1, -1}, {17556 + 200, 0, -1}, {17556 + 320, 1, -1}}})
 		}
 		// several sources at once (STAT not judged, VBlank and timing are)
 		emit("frames", &ppuScript{stat: 0x78, lyc: 10, cycles: 17556 + 500, sw: [][3]int{{5, 1, 0}}})
